@@ -12,10 +12,12 @@ pub mod c09;
 pub mod c10;
 pub mod c11;
 pub mod c14;
+pub mod c15;
+pub mod c16;
 pub mod c17;
 pub mod hostile;
 
-pub const ALL: &[&str] = &["C01", "C02", "C03", "C04", "C05", "C06", "C07", "C08", "C09", "C10", "C11", "C13", "C14", "C17"];
+pub const ALL: &[&str] = &["C01", "C02", "C03", "C04", "C05", "C06", "C07", "C08", "C09", "C10", "C11", "C13", "C14", "C15", "C16", "C17"];
 
 pub fn make(id: &str) -> Option<Box<dyn Check>> {
     match id {
@@ -32,6 +34,8 @@ pub fn make(id: &str) -> Option<Box<dyn Check>> {
         "C08" => Some(Box::new(c08::C08)),
         "C09" => Some(Box::new(c09::C09)),
         "C14" => Some(Box::new(c14::C14)),
+        "C15" => Some(Box::new(c15::C15)),
+        "C16" => Some(Box::new(c16::C16)),
         "C17" => Some(Box::new(c17::C17::new())),
         _ => None,
     }
